@@ -3,7 +3,7 @@
 //!   key: 1 laixer/hcu 2 laixer/vcu 3 j1939/ecu 4 kübler/encoder 5 kübler/inclinometer 6 j1939/ecm 7 volvo/d7e 0 unknown
 //!   tkind: 0 none | 1 never (u64::MAX) | 2 zero | 3 short (150 ms)
 //!   events: 1 can_id dlc b0..b7 (inject + recv) | 2 (on_tick) | 3 <motion> | 7 k (on_command other) | 4 ms (wait) | 5 (setup) | 6 (teardown)
-//!           | 8 <motion> (on_command while every socket write fails)
+//!           | 8 <motion> (on_command while every socket write fails) | 9 <motion> (on_command while the bus is stalled for 60 ms)
 //! obs  = [nevents, per event: frames.., nsignals, signals..]
 use crate::{bus::*, wire::*};
 use glonax::core::Object;
@@ -109,6 +109,17 @@ fn run(c: &[i64]) -> Vec<i64> {
                     bus.fail_sends();
                     auth_cmd.on_command(&Object::Motion(m)).await;
                     bus.unfail_sends();
+                    i += 1 + used;
+                }
+                9 => {
+                    // the bus stops draining, the command is accepted, 60 ms later the bus recovers: the
+                    // writes wait for room and every frame arrives, in order
+                    let (m, used) = dec_motion(&c[i + 1..]).unwrap();
+                    bus.congest();
+                    let flag = bus.pause_flag();
+                    let h = std::thread::spawn(move || { std::thread::sleep(std::time::Duration::from_millis(60)); flag.store(false, std::sync::atomic::Ordering::SeqCst); });
+                    auth_cmd.on_command(&Object::Motion(m)).await;
+                    let _ = h.join();
                     i += 1 + used;
                 }
                 7 => { auth_cmd.on_command(&other_object(c[i + 1])).await; i += 2; }
